@@ -3,7 +3,7 @@
    real nodes back after node.rotate() and audits every parent/child link). *)
 From Coq Require Import List Arith Bool Permutation.
 From Mathy Require Import Bt Heap.
-From MathyProofs Require Import BtFacts HeapFacts HeapRotate.
+From MathyProofs Require Import BtFacts BtRotateInv HeapFacts HeapRotate.
 Import ListNotations.
 
 Theorem C15_rotate_inorder : forall (A:Type) (t:bt A) (p:list side), inorder (rotate_tree t p) = inorder t.
@@ -24,6 +24,26 @@ Theorem C15_rotate_shape : forall (A:Type) (a b c:bt A) (n p:A),
 Proof. intros. split; [destruct c|destruct a]; reflexivity. Qed.
 Print Assumptions C15_rotate_shape.
 
+(* the same at ANY depth q: the node at q ++ [d] ends up at q, its former parent p is its child on the other side, and the three
+   subtrees a, c, and the parent's other subtree keep their left-to-right order *)
+Theorem C15_rotate_moves_up : forall (A:Type) (t:bt A) q d n a c, bsub t (q ++ [d]) = T a n c ->
+  exists p x y, bsub t q = (match d with SL => T (T a n c) p y | SR => T x p (T a n c) end) /\
+    bsub (rotate_tree t (q ++ [d])) q = (match d with SL => T a n (T c p y) | SR => T (T x p a) n c end).
+Proof. intros A t q d n a c. apply rotate_moves_up. Qed.
+Print Assumptions C15_rotate_moves_up.
+(* every subtree that hangs off the path to the parent (r is at least as long as q and q is not a prefix of r) is untouched *)
+Theorem C15_rotate_context : forall (A:Type) (t:bt A) q d r, (forall k, firstn k r <> q) -> length q <= length r ->
+  bsub (rotate_tree t (q ++ [d])) r = bsub t r.
+Proof. intros A t q d r. apply rotate_context. Qed.
+Print Assumptions C15_rotate_context.
+(* nothing is lost: rotating the former parent (now the child on the other side) restores the tree exactly *)
+Theorem C15_rotate_undo : forall (A:Type) (t:bt A) q d, bsub t (q ++ [d]) <> E ->
+  rotate_tree (rotate_tree t (q ++ [d])) (q ++ [flip d]) = t.
+Proof. intros A t q d. apply rotate_undo. Qed.
+Print Assumptions C15_rotate_undo.
+Example C15_undo_example : let t := T (T (T E 3 E) 1 (T E 4 E)) 0 (T E 2 E) in
+  bsub t ([SL] ++ [SR]) <> E /\ rotate_tree (rotate_tree t [SL; SR]) [SL; SL] = t /\ rotate_tree t [SL; SR] <> t.
+Proof. cbv. repeat split; discriminate. Qed.
 (* HEAP LEVEL (theories/Heap.v: hrotate = the pointer writes of BinaryTreeNode.rotate, in order). For every heap that represents an
    abstract tree T at A (links mutually consistent: rep), with no node object twice, every node of the tree other than its root:
    after node.rotate() the heap represents a tree T' at A' over the same node objects (a permutation of the addresses: none lost, none
